@@ -7,6 +7,9 @@
 (* twice the file size plus two pages; peak heap allocation is bounded by  *)
 (* 512 B x (n + 8) x size + 64 MiB where n is the prototype length the     *)
 (* file declares (a stream byte can decode into eight one-bit values);     *)
+(* the bytes moved by the byte-stream buffers in one call (work counter    *)
+(* hook) are bounded by 6 x size + 4 KiB: QueueCostSpec.WorkLinear gives   *)
+(* fed + 8 n per packet, a packet has at least 6 + 2 n bytes;              *)
 (* an iterator never yields more points than the declared record count.    *)
 (***************************************************************************)
 EXTENDS TraceBase, Integers
@@ -25,6 +28,8 @@ OpOk(o) ==
     /\ ChkP(o.out \in {"ok", "err", "panic", "overrun"}, {"C08"}, "unexpected-outcome:" \o o.op)
     /\ ChkP(o.devread <= 2 * E.size + 2048, {"C09"}, "device-bytes-read-in-one-call-exceed-the-bound:" \o o.op)
     /\ ChkP(KiB(o.alloc) <= AllocBoundKiB(E.nproto, E.size), {"C09"}, "peak-allocation-in-one-call-exceeds-the-bound:" \o o.op)
+    \* cost (QueueCostSpec.WorkLinear summed over one call): every stream byte is moved once, incomplete values once per packet
+    /\ ("work" \in DOMAIN o) => ChkP(o.work <= 6 * E.size + 4096, {"C09"}, "bytes-moved-in-one-call-exceed-the-bound:" \o o.op)
     \* C06 on untrusted input: a blob extraction that reports success delivered exactly the descriptor's length
     /\ ("got" \in DOMAIN o /\ "some" \in DOMAIN o.got) => ChkP(o.got.some = o.len, {"C06"}, "blob-extraction-ok-with-another-length-than-the-descriptor:" \o o.op)
     /\ ("yielded" \in DOMAIN o) => ChkP(LeU(o.yielded, o.records), {"C09"}, "iterator-yields-more-points-than-the-record-count:" \o o.op)
